@@ -5,6 +5,7 @@ import (
 	"math/big"
 	"reflect"
 	"sort"
+	"strconv"
 	"strings"
 	"time"
 
@@ -781,6 +782,22 @@ func (w *World) M07(rec *ScanRecord) []Violation {
 		P := int64(len(gr.GV.Tainted))
 		B := w.Bound(rec, gr)
 		cur := desiredAtScaleUp(w, rec, gr)
+		// "on top of the group's current desired size": when the provider reports success for a
+		// fleet request of R, R instances have been attached (each attach raises the desired size)
+		if nreq > 0 && !nodeFailures {
+			var fleetAsked, attached int64
+			for _, e := range gr.Seg {
+				if e.Kind == sim.ACreateFleet && e.OK() {
+					fleetAsked += e.Value
+				}
+				if e.Kind == sim.AAttach && e.OK() {
+					attached += int64(len(e.IDs))
+				}
+			}
+			if fleetAsked > 0 && attached != fleetAsked {
+				out = append(out, viol("C07", "desired-not-raised-by-remainder", "group %d: %d instances requested and reported as added, %d attached to the group", gr.G, fleetAsked, attached))
+			}
+		}
 		switch {
 		case ex.Kind == "recover":
 			N := int64(ex.N)
@@ -1164,7 +1181,11 @@ func taintsEqualMultiset(a, b []v1.Taint) bool {
 // PreciseWrite judges one accepted node update against the API object it replaced:
 // exactly one escalator taint added (value = now, effect as configured) or exactly the
 // escalator taint removed; everything else preserved. Returns "" if fine.
-func PreciseWrite(before, sent *v1.Node, now time.Time, effect v1.TaintEffect) (sig, msg string) {
+//
+// The taint value must be the time of the write. With a slow API the stamp is taken between
+// the read of the node that precedes the write (notBefore) and the arrival of the write (now);
+// with an instant API both are the same instant.
+func PreciseWrite(before, sent *v1.Node, notBefore, now time.Time, effect v1.TaintEffect) (sig, msg string) {
 	if before == nil || sent == nil {
 		return "update-of-absent-node", "update without a stored object"
 	}
@@ -1203,8 +1224,8 @@ func PreciseWrite(before, sent *v1.Node, now time.Time, effect v1.TaintEffect) (
 		if t.Effect != want {
 			return "taint-effect", fmt.Sprintf("taint effect %q, configured %q", t.Effect, effect)
 		}
-		if t.Value != fmt.Sprint(now.Unix()) {
-			return "taint-value-not-now", fmt.Sprintf("taint value %q, current unix time %d", t.Value, now.Unix())
+		if v, err := strconv.ParseInt(t.Value, 10, 64); err != nil || v < notBefore.Unix() || v > now.Unix() {
+			return "taint-value-not-now", fmt.Sprintf("taint value %q, node read at unix time %d, write arrived at %d", t.Value, notBefore.Unix(), now.Unix())
 		}
 		if t.TimeAdded != nil {
 			return "taint-extra-field", "TimeAdded set"
@@ -1227,7 +1248,11 @@ func PreciseWrite(before, sent *v1.Node, now time.Time, effect v1.TaintEffect) (
 func (w *World) M15(rec *ScanRecord) []Violation {
 	var out []Violation
 	for _, gr := range rec.Groups {
+		read := map[string]time.Time{}
 		for _, e := range gr.Seg {
+			if e.Kind == sim.KGet && e.OK() {
+				read[e.Node] = e.T
+			}
 			if e.Kind != sim.KUpdate || !e.OK() {
 				continue
 			}
@@ -1236,7 +1261,11 @@ func (w *World) M15(rec *ScanRecord) []Violation {
 			if g >= 0 {
 				eff = w.Cfg.Groups[g].Opts.TaintEffect
 			}
-			if sig, msg := PreciseWrite(e.Before, e.Sent, e.T, eff); sig != "" {
+			notBefore, ok := read[e.Node]
+			if !ok {
+				notBefore = e.T
+			}
+			if sig, msg := PreciseWrite(e.Before, e.Sent, notBefore, e.T, eff); sig != "" {
 				out = append(out, viol("C15", sig, "update of %s: %s", e.Node, msg))
 			}
 		}
@@ -1294,6 +1323,74 @@ func (w *World) M19(rec *ScanRecord) []Violation {
 					}
 				}
 				calls = nil
+			}
+		}
+	}
+	// one removal request per reaper pass: the nodes a pass decides to remove go to the cloud
+	// provider in one DeleteNodes call (so that the minimum check and the all-or-nothing rule apply
+	// to the whole set); there is one pass for force-tainted nodes and one for tainted nodes
+	for _, gr := range rec.Groups {
+		var forceCalls, taintCalls int
+		for _, e := range gr.DeleteCalls {
+			force := false
+			for _, name := range e.Names {
+				if n := gr.GV.Node(name); n != nil {
+					if _, ok := ref.HasTaint(n, ref.ForceTaintKey); ok {
+						force = true
+					}
+				}
+			}
+			if force {
+				forceCalls++
+			} else {
+				taintCalls++
+			}
+		}
+		if forceCalls > 1 || taintCalls > 1 {
+			out = append(out, viol("C19", "removal-request-split", "group %d: %d removal requests for force-tainted and %d for tainted nodes in one scan (one per pass expected)", gr.G, forceCalls, taintCalls))
+		}
+	}
+	// a not-in-group answer for a node whose instance is a member of the group's ASG
+	for _, gr := range rec.Groups {
+		snap, ok := rec.ASGs[w.Cfg.Groups[gr.G].Opts.CloudProviderGroupName]
+		if !ok {
+			continue
+		}
+		refreshFailed := false // the provider may then work from an older description
+		for _, e := range rec.Prelude {
+			if e.Injected {
+				refreshFailed = true
+			}
+		}
+		if refreshFailed {
+			continue
+		}
+		gone := map[string]bool{}
+		for _, e := range gr.Seg {
+			if e.Kind == sim.ATerminateInASG && e.OK() && len(e.IDs) > 0 {
+				gone[e.IDs[0]] = true
+			}
+			if e.Kind != sim.MDeleteNodes || !strings.Contains(e.ErrType, "NodeNotInNodeGroup") {
+				continue
+			}
+			allMembers := len(e.Names) > 0
+			for _, name := range e.Names {
+				n := gr.GV.Node(name)
+				member := false
+				if n != nil {
+					for _, id := range snap.Instances {
+						if !gone[id] && n.Spec.ProviderID == w.A.ProviderIDOf(id) {
+							member = true
+						}
+					}
+				}
+				if !member {
+					allMembers = false
+				}
+			}
+			if allMembers {
+				out = append(out, viol("C19", "member-reported-not-in-group", "group %d: DeleteNodes(%v) answered not-in-group although every node's instance is a member of %s", gr.G, e.Names, snap.Name))
+				out = append(out, viol("C12", "member-reported-not-in-group", "group %d: DeleteNodes(%v) answered not-in-group although every node's instance is a member of %s; the scan stops and later groups are not processed", gr.G, e.Names, snap.Name))
 			}
 		}
 	}
